@@ -488,7 +488,7 @@ def owner_root(mir, syn, path, depth=4):
         mir.__dict__["_callers"] = callers
     private = mir.__dict__.get("_private_free")
     if private is None:
-        private = {f["qual"] for f in syn.fns if f.get("vis", "") == "" and f.get("qual") and not f.get("impl_trait") and
+        private = {f["qual"] for f in syn.fns if f.get("vis", "").replace(" ", "") in ("", "pub(super)", "pub(self)") and f.get("qual") and not f.get("impl_trait") and
                    (f.get("impl_of") is None or f["name"] not in ("new", "from", "default"))}      # private free functions and private inherent methods
         mir.__dict__["_private_free"] = private
 
@@ -553,9 +553,19 @@ def syn_owner(syn, f, depth=3):
         return cache[q0]
     cur = f
     for _ in range(depth):
-        if cur.get("vis", "") != "" or not cur.get("qual") or cur.get("impl_trait"):
+        vis = cur.get("vis", "").replace(" ", "")
+        if vis not in ("", "pub(self)", "pub(super)") or not cur.get("qual") or cur.get("impl_trait"):
             break
-        if cur.get("impl_of") is None:
+        if cur.get("impl_of") is None and vis == "pub(super)":
+            # a function of a private nested module, visible in the module around it: called as `name(..)` after a `use`, or as `inner::name(..)`;
+            # its name must be unique among the free functions below that module
+            scope = cur["mod"].rsplit("::", 1)[0]
+            below = [g for g in syn.fns if (g["mod"] == scope or g["mod"].startswith(scope + "::"))]
+            if sum(1 for g in below if g["name"] == cur["name"] and g.get("impl_of") is None) != 1:
+                break
+            callers = [g for g in below if g is not cur and g.get("body") and
+                       any(n.get("k") == "call" and n["f"].get("k") == "path" and n["f"]["p"].split("::")[-1] == cur["name"] for n in walk(g["body"]))]
+        elif cur.get("impl_of") is None:
             callers = [g for g in syn.fns if g is not cur and g["mod"] == cur["mod"] and g.get("body") and
                        any(n.get("k") == "call" and n["f"].get("k") == "path" and n["f"]["p"] == cur["name"] for n in walk(g["body"]))]
         else:
@@ -579,6 +589,13 @@ def normalise_review(syn, table):
     out = {}
     for (fn, kind), (cnt, why) in table.items():
         f = by_qual.get(fn)
+        if f is None and "::" in fn:
+            # the reviewed function is not where it was: the same name, once, in a module nested in the old one (or around it)
+            mod_, name_ = fn.rsplit("::", 1)
+            same = [g for g in syn.fns if g["name"] == name_ and g.get("qual") and g.get("impl_of") is None and
+                    (g["mod"].startswith(mod_ + "::") or mod_.startswith(g["mod"] + "::"))]
+            if len(same) == 1 and "::" not in name_:
+                f = same[0]
         key = (syn_owner(syn, f) if f is not None else fn, kind)
         if key in out:
             out[key] = (out[key][0] + cnt, out[key][1] + "; " + why)
